@@ -42,6 +42,13 @@ def main(argv):
         ctx.note_inconclusive("harness error: " + traceback.format_exc()[-1500:])
     reach.stop()
     res = ctx.result()
+    try:
+        from . import engine
+
+        if engine.ABANDONED[0]:
+            res["events"]["parses_abandoned_after_wall_clock_limit"] = engine.ABANDONED[0]
+    except Exception:  # noqa: BLE001
+        pass
     res["status"] = status
     res["reach"] = reach.report()
     with open(out, "w") as fh:
